@@ -113,7 +113,18 @@ def _worker(mod, tier, k, nworkers, budget, conn):
                 a = (r.get("out"), len(r.get("v", ())), r.get("n"))
                 b = (r2.get("out"), len(r2.get("v", ())), r2.get("n"))
                 if a != b:
-                    raise RuntimeError(f"non-deterministic replay of case {case!r}: {a!r} vs {b!r}")
+                    if r.get("v") or r2.get("v"):
+                        # The oracle fired on the real code in at least one of the two executions: that observation stands on
+                        # its own (the replay file re-executes the case in a fresh process).  That the second execution of the
+                        # same case in the same process differs means the LIBRARY carries state from one run to the next
+                        # (a class-level or module-level cache) - reported with the violation, not as a harness error.
+                        if not r.get("v"):
+                            r = r2
+                        r["v"] = list(r["v"]) + [{"msg": "the same case executed twice in one process gave different observations "
+                                                         f"({a[1]} vs {b[1]} oracle failures): the library keeps state across runs",
+                                                  "case": (r["v"][0].get("case") if r["v"] else case)}]
+                    else:
+                        raise RuntimeError(f"non-deterministic replay of case {case!r}: {a!r} vs {b!r}")
             agg["cases"] += 1
             agg["reached"] = i
             agg["n"] += r.get("n", 1)
@@ -222,6 +233,17 @@ def run_check(mod, tier, seed):
     known = load_known()
     parts = explore(mod, tier, seed)
     errs = [p["err"] for p in parts if p.get("err")]
+    nondet = [e for e in errs if "non-deterministic replay" in e]
+    if errs and len(nondet) == len(errs) and any(p.get("v") for p in parts):
+        # Some workers saw the same case give different (violation-free) outcomes twice while other workers saw the oracle
+        # fail: the failures are observations on the real code and are reported; the divergence (library state that survives
+        # from one run to the next) is mentioned with them.  Without any oracle failure a divergence stays a harness error.
+        print(f"NOTE: {len(nondet)} worker(s) stopped because one case gave different outcomes when executed twice in one process "
+              f"(state kept by the library across runs); the oracle failures found by the other workers are reported below")
+        errs = []
+        for p in parts:
+            if p.get("err"):
+                p["capped"] = True          # that worker's share of the enumeration is incomplete: never call the run exhaustive
     if errs:
         print(f"BROKEN: check {prop} crashed in the harness (this is not a verdict about the property):")
         print(errs[0])
